@@ -584,6 +584,8 @@ func c18ExportImport(t *testing.T, r *rand.Rand, w *CaseWriter, label string, re
 	jsonEq23 := map[string]bool{}
 	jsonDiff := map[string]map[string]any{}
 	var qdiff []string
+	var storeDiff map[string][]string
+	_ = storeDiff
 	qdiffOnlyNavHeight, qdiffOnlyStaleLookup := true, true
 	if err != nil {
 		accept1, accept2 = false, false
@@ -662,6 +664,7 @@ func c18ExportImport(t *testing.T, r *rand.Rand, w *CaseWriter, label string, re
 			}
 		}
 		w.CountN("queries_compared", int64(len(qs)))
+		storeDiff = c18StoreDiffs(ref, e1)
 		// second generation
 		if m2x, err = c18ParseMods(cdc, st2); err != nil {
 			t.Fatalf("%s: parse export 2: %v", label, err)
